@@ -473,3 +473,8 @@ def run(chk):
     rule_first_blocker(chk, prog)
     rule_fallback(chk, prog)
     rule_endpoints(chk, prog)
+    from ..rules import mirrors
+    r = chk.rule("MIRROR", "scan-line helpers that bound the space a nudged segment may move in (firstObstacleAbove/Below, "
+                 "markShiftSegmentsAbove/Below, NudgingShiftSegment::lowC/highC) stay exact mirror images of each other "
+                 "(tables/mirrors.json): an asymmetric edit lets a segment be pushed into a shape on one side only", floor=3)
+    mirrors.check(r, prog, ["Avoid::Node::", "Avoid::NudgingShiftSegment::"], sample=chk.sample)
